@@ -28,7 +28,10 @@ def build_cv(spec):
         import pandas as pd
         from sktime.forecasting.base import ForecastingHorizon
         v = p["fh"]
-        p["fh"] = [np.array(v), list(v), pd.Index(v, dtype="int64"), ForecastingHorizon(list(v)), np.array(v)][(sum(v) + len(v) + int(p.get("window_length") or p.get("initial_window") or 0)) % 5]
+        k_ = (sum(v) + len(v) + int(p.get("window_length") or p.get("initial_window") or 0)) % 5
+        spaced = len(v) >= 2 and len(set(np.diff(v).tolist())) == 1
+        # (the last slot: a range index when the steps are equally spaced - also with a step above 1 -, an array otherwise)
+        p["fh"] = [np.array(v), list(v), pd.Index(v, dtype="int64"), ForecastingHorizon(list(v)), pd.RangeIndex(v[0], v[-1] + 1, v[1] - v[0]) if spaced else np.array(v)][k_]
     if kind == "sliding":
         return SlidingWindowSplitter(**p)
     if kind == "expanding":
@@ -407,7 +410,7 @@ def random_spec(rng, depth=2, allow_slow=False, allow_fh_required=True, positive
             p["n_jobs"] = 1        # explicitly sequential: joblib runs the member fits in this process
         return ["ensemble", p, members]
     if kind == "pipeline":
-        k = int(rng.integers(1, 3))
+        k = int(rng.integers(0, 3))          # also the pipeline that consists of its forecaster only
         ts, pos = [], positive
         for j in range(k):
             pool = [t for t in TRANSFORMERS if pos or not _t_needs_positive(t)]
